@@ -16,6 +16,7 @@ RULE = ('scenario = 3-6 generated programs (chains, trees, multiple inheritance 
         'undefined names, with destruct+reload of programs in between. Base run = the whole history in one driver life; one more run per '
         'call = that call alone in a fresh life. non-trivial = the call ran or was refused by visibility; distinct = distinct '
         '(caller kind, visibility, depth of the defining program).')
+RULE += (' Later additions: after every call_other the caller reads one of its own variables and calls one of its own functions.')
 COMPONENTS = {'real': ['src/apply.c (apply cache, find_function_by_name2, function_visible)', 'lib/lpc/program.c function tables', 'lib/lpc/compiler.c inheritance (copy_functions, overrides, visibility modifiers)',
                        'src/interpret.c call_function_by_address / function_index_offset / variable_index_offset', 'lib/lpc/functional.c', 'lib/efuns/call_out.c', 'src/simulate.c user_parser'],
               'stub': ['kernel sockets/clock/timer (simulated)']}
